@@ -549,7 +549,7 @@ func (g *gen) DecodeSource(props []string, msgs []*Message, h2 bool, fieldFilter
 	if g.pick > 2 {
 		g.pick = 2
 	}
-	g.mapN, g.listN = 1, 1
+	g.mapN, g.listN = 1, 1 // pre-state containers: the step is from an arbitrary pre-state, one element suffices to expose concat/merge
 	g.header()
 	g.driversOnce()
 	g.decodeCommon()
@@ -573,7 +573,7 @@ func (g *gen) DecodeSource(props []string, msgs []*Message, h2 bool, fieldFilter
 						continue
 					}
 					g.decodeStep(m, f, false)
-					if h2 {
+					if h2 && g.wantH2("C03", m, f) {
 						g.decodeStep(m, f, true)
 					}
 				}
@@ -699,7 +699,7 @@ func (g *gen) totalMessage(m *Message, anyN int) {
 func (g *gen) TotalSource(msgs []*Message, fieldFilter func(m *Message, f *Field) bool, anyN int) string {
 	g.lightAny = true
 	g.pick = 1
-	g.mapN, g.listN = 1, 1
+	g.mapN, g.listN = 1, 1 // pre-state containers: the step is from an arbitrary pre-state, one element suffices to expose concat/merge
 	g.header()
 	g.driversOnce()
 	g.decodeCommon()
